@@ -31,10 +31,14 @@ type c01Capture struct {
 	attempts []string
 	fail     int  // answer 503 to this many further attempts (drives the retry path)
 	maskCT   bool // drop a sniffed / marshaller-chosen Content-Type from the rendering
+	sawUser  bool // some attempt's URL carried userinfo (net/http turns it into an Authorization header)
 }
 
 func (c *c01Capture) RoundTrip(r *http.Request) (*http.Response, error) {
 	c.req = r
+	if r.URL != nil && r.URL.User != nil {
+		c.sawUser = true
+	}
 	c.had = r.Body != nil
 	c.body = nil
 	if r.Body != nil {
@@ -505,7 +509,7 @@ func c01LanePipe(t *testing.T, s *c01Sess, profile string, n int) {
 			continue
 		}
 		class := ""
-		if err == nil && capt.req != nil && capt.req.URL.User != nil {
+		if capt.sawUser || (err == nil && capt.req != nil && capt.req.URL.User != nil) {
 			// net/http.Client.Do turns URL userinfo into an Authorization header (base64: external)
 			s.Count("skipped:userinfo")
 			continue
